@@ -159,7 +159,7 @@ Definition check_302 (fs : list field) : verdict :=
   match fs with
   | [FB lex; FZ b64; FZ b32] =>
     match lex2f64 lex, lex2f32 lex with
-    | Some x, Some y => expect 21 ((x =? b64) && (y =? b32)) [FZ x; FZ y]
+    | Some x, Some y => expect 21 ((x =? b64) && (y =? b32) && lex_is_f64 lex b64 && lex_is_f32 lex b32) [FZ x; FZ y]
     | _, _ => VBad 21 []
     end
   | _ => VBad 99 []
@@ -188,7 +188,7 @@ Definition check_303 (fs : list field) : verdict :=
           end)
   | [FZ 4; FZ bits; FB impl; FB _] =>
     match lex2f64 impl with
-    | Some b => expect 4 (b =? bits) [FZ b]
+    | Some b => expect 4 (lex_is_f64 impl bits) [FZ b]
     | None => VBad 4 []
     end
   | _ => VBad 99 []
